@@ -44,7 +44,7 @@ Qed.
 
 Definition loc_ok (ps : list pool) (now : Z) (b : batch) : Prop :=
   b_now b = now /\ b_tasks b <> [] /\
-  exists p w, In p ps /\ In w (p_workers p) /\ b_pool b = p_id p /\ w_id (b_worker b) = w_id w.
+  exists p w, In p ps /\ In w (p_workers p) /\ b_pool b = p_id p /\ w_id (b_worker b) = w_id w /\ w_loaded (b_worker b) = w_loaded w.
 (* what one level of run_inference guarantees, given what held before *)
 Definition level_spec (wd : world) (loc : batch -> Prop) (st : cw_state) (acc : list batch) (st' : cw_state) (acc' : list batch) : Prop :=
   Inv_st wd st' /\ Forall (batch_ok wd) acc' /\ once_inv acc' st' /\ incl (st_recs st') (st_recs st) /\
@@ -99,8 +99,8 @@ Proof.
     assert (Hin' : incl ws (p_workers p)) by (intros x Hx; apply Hin; right; assumption).
     pose proof (IH _ _ _ _ Hw A1 A2 A3 Hin' H) as L2.
     eapply level_spec_trans; [| |exact L1|exact L2]; [|auto].
-    intros b [B1 [B2 [B3 B4]]]. unfold loc_ok. repeat (split; [assumption|]). exists p, w.
-    repeat split; [left; reflexivity|apply Hin; left; reflexivity|assumption|assumption].
+    intros b [B1 [B2 [B3 [B4 B5]]]]. unfold loc_ok. repeat (split; [assumption|]). exists p, w.
+    repeat split; [left; reflexivity|apply Hin; left; reflexivity|assumption|assumption|assumption].
 Qed.
 Lemma infer_pools_spec : forall wd ls now ps st acc st' acc',
   world_wf wd -> Inv_st wd st -> Forall (batch_ok wd) acc -> once_inv acc st ->
@@ -114,12 +114,13 @@ Proof.
     pose proof L1 as [A1 [A2 [A3 _]]].
     pose proof (IH _ _ _ _ Hw A1 A2 A3 H) as L2.
     eapply level_spec_trans; [| |exact L1|exact L2].
-    + intros b [B1 [B2 [q [w [[<-|[]] [Q2 [Q3 Q4]]]]]]]. unfold loc_ok. repeat (split; [assumption|]). exists p, w. repeat split; [left; reflexivity|assumption|assumption|assumption].
-    + intros b [B1 [B2 [q [w [Q1 [Q2 [Q3 Q4]]]]]]]. unfold loc_ok. repeat (split; [assumption|]). exists q, w. repeat split; [right; assumption|assumption|assumption|assumption].
+    + intros b [B1 [B2 [q [w [[<-|[]] [Q2 [Q3 [Q4 Q5]]]]]]]]. unfold loc_ok. repeat (split; [assumption|]). exists p, w. repeat split; [left; reflexivity|assumption|assumption|assumption|assumption].
+    + intros b [B1 [B2 [q [w [Q1 [Q2 [Q3 [Q4 Q5]]]]]]]]. unfold loc_ok. repeat (split; [assumption|]). exists q, w. repeat split; [right; assumption|assumption|assumption|assumption|assumption].
 Qed.
 
 (* ------------------------------------------------------------------ schedule() *)
-Definition inv_pools (inv : invocation) : list pool := match i_load inv with Some (_, ps') => ps' | None => i_pools inv end.
+(* the virtual cluster run_inference works on: the offered view with the evictions of run_load applied *)
+Definition inv_pools (inv : invocation) : list pool := match load_pools inv with Ok ps => ps | Err _ => [] end.
 Definition admitted (wd : world) (inv : invocation) (t : task) : Prop := In t (i_offered inv) /\ hopeless wd (i_now inv) t = false.
 
 Lemma cw_schedule_spec : forall wd ls inv st st' d, world_wf wd -> Inv_st wd st -> cw_schedule wd ls inv st = Ok (st', d) ->
@@ -134,7 +135,7 @@ Proof.
   destruct (admission wd (i_now inv) (i_offered inv) st []) as [[st1 c]|] eqn:Ea; [|discriminate].
   destruct (admission_inv _ _ _ _ _ _ _ Hw Hi Ea) as [Hi1 Hrec1].
   assert (Hx : exists lds, infer_pools ls (i_now inv) (inv_pools inv) st1 [] = Ok (st', d_batches d) /\ d = mkD c lds (d_batches d)).
-  { unfold inv_pools. destruct (i_load inv) as [[l ps']|];
+  { unfold inv_pools. destruct (load_pools inv) as [ps|]; [|discriminate].
     match type of H with context [infer_pools ?a ?b ?c ?d ?e] => destruct (infer_pools a b c d e) as [[st2 bs]|] eqn:Ei; [|discriminate] end;
     injection H as <- <-; eexists; split; reflexivity. }
   destruct Hx as [lds [Ei _]].
